@@ -803,6 +803,51 @@ def cap_sources(run):
                   "%s: %s; widths would again be limited only by the machine word (bit-by-bit loops of that length, unchecked size sums)" % (c["fn"], why))
 
 
+def _cap_helper_guard(run, f, pb):
+    from rules_mpt import success_edge_of_call
+    from rules_tab import value_depends_on, err_return_in_region
+    from rules_sym import report_error_in_region
+    import tables as TT
+    prog = run.prog
+    for bi, t in f.calls():
+        g = prog.fn(t.get("resolved") or t.get("callee") or "")
+        if g is None or "util::bigint" not in g.id or g.id == f.id:
+            continue
+        e = success_edge_of_call(f, bi, t)
+        if e is None or not f.edge_dominates(e[0], e[1], pb):
+            continue
+        # which argument carries the cap
+        cap_idx = None
+        for i, a in enumerate(t["args"]):
+            txt = a.get("const") or ""
+            oo = f.origin_op(a) if op_place(a) is not None else None
+            if oo and oo[0] == "place" and oo[1][0] == "binop":
+                oo = oo[1]
+            if "BIGINT_MAX_BITS" in txt or (oo and oo[0] == "binop" and any("BIGINT_MAX_BITS" in (x.get("const") or "") for x in (oo[1]["l"], oo[1]["r"]))):
+                cap_idx = i + 1
+        if cap_idx is None:
+            continue
+        for b2, s2, st in g.stmts():
+            if st["k"] == "assign" and st["rv"]["k"] == "binop" and st["rv"]["op"] in ("Ge", "Gt", "Lt", "Le"):
+                sides = [op_local(o) for o in (st["rv"]["l"], st["rv"]["r"])]
+                if not any(l is not None and g.copy_root(l) == cap_idx for l in sides):
+                    continue
+                other = st["rv"]["r"] if (sides[0] is not None and g.copy_root(sides[0]) == cap_idx) else st["rv"]["l"]
+                from rules_sym import deep
+                if "bits(" not in deep(g, other, 6):
+                    continue
+                tt = g.blocks[b2]["term"]
+                if tt["k"] != "switch":
+                    continue
+                oks = [x for x, _, s_ in g.stmts() if s_["k"] == "assign" and s_["place"]["l"] == 0 and not s_["place"]["p"] and s_["rv"]["k"] == "agg" and s_["rv"].get("variant") == "Ok"]
+                for edge in g.succs(b2):
+                    reg = TT.dominated_region(g, edge, b2)
+                    others = [x for x in g.succs(b2) if x != edge]
+                    if report_error_in_region(g, reg) and err_return_in_region(g, reg) and oks and others and all(g.edge_dominates(b2, others[0], x) for x in oks):
+                        return True
+    return False
+
+
 def lim4(run):
     """big-integer operations are capped: inside BigInt::checked_{add,sub,mul,shl} the size test against BIGINT_MAX_BITS
     dominates the num-bigint operation; checked_div/mod test for zero first; shifts convert the amount with try_into"""
@@ -866,6 +911,11 @@ def lim4(run):
                                 guarded = True
                     if not guarded:
                         ok = False
+            if not ok:
+                # the same test factored into a helper of util::bigint: the primitive is behind the success edge of a call that is
+                # given the cap (an expression of BIGINT_MAX_BITS), and the helper answers Ok only on the `below the cap` edge of a
+                # comparison of operand bits with that parameter and reports on the other
+                ok = bool(prim_sites) and all(_cap_helper_guard(run, f, pb) for pb in prim_sites)
             run.check(ok, R, key, f.loc(), "BigInt::%s tests the operand sizes against BIGINT_MAX_BITS (and reports) before the num-bigint operation" % name,
                       "BigInt::%s performs the num-bigint operation without a dominating test against BIGINT_MAX_BITS: results could grow without bound (memory exhaustion instead of `value is out of supported range`)" % name)
         elif kind == "zero":
